@@ -35,7 +35,7 @@ A = 'circus.arbiter:Arbiter.'
 
 
 def check(run, ctx):
-    run.each(ctx, [r1, r2, r3, r4, r5, r6, r7])
+    run.each(ctx, [r1, r2, r3, r4, r5, r6, r7, r8])
 
 
 def _commands(ctx):
@@ -525,3 +525,11 @@ def r7(run, ctx):
     run.share(ctx, c10.r1, 'R1', 'R7', 'a request refused as conflicting leaves the exclusive '
               'slot untouched (shared with C10 R1): otherwise the refusal itself changes the '
               'daemon and the next conflicting request is admitted')
+
+
+def r8(run, ctx):
+    from rules import c18
+    run.rule('R8', 'a signal request with a childpid and no pid is refused in validate (shared '
+             'with C18 R3): accepted, it fails part-way - after the child was signalled through '
+             'its owner, the next worker raises - so an error reply follows an effect')
+    c18.childpid_without_pid(run, ctx, 'R8')
